@@ -35,6 +35,18 @@ CLAIMS = {
         "note": TB,
         "technique": "abstract interpretation (loop invariants, obligations) + dominance / reachability queries on the inlined supergraph",
     },
+    "C12": {
+        "category": "other",
+        "text": "Interleavings by non-interference: no static / shared captured state; single-port: routing key == remote of the per-transfer socket == "
+                "requester, registered Sender belongs to that socket, registration only in single-port mode [ghost], dispatch indexes the table with the "
+                "datagram's source behind contains_key and forwards that datagram, the channel-backed socket sends via its clone of the listening socket to "
+                "its own remote, the listener's receive buffer never shrinks (entailed new >= old at every write); multi-port: bind(local ip, 0) and a "
+                "successful connect(requester) on every Ok return; every stray non-request packet ends its listen iteration with ERROR 4 [ghost reply at the "
+                "back edge]. Per-client byte streams under concrete interleavings are not decided.",
+        "design_ref": "DESIGN.md section 4 C12",
+        "note": TB + " Kernel semantics of connect()/try_clone are trusted.",
+        "technique": "ownership / provenance queries over the interpreter's value terms + ghost-variable checks at the listen loop's back edge",
+    },
     "C13": {
         "category": "other",
         "text": "On the closure spawned by Worker::receive: remove_file is reachable only on the Err edge of the transfer result, edge-dominated by "
